@@ -200,6 +200,71 @@ pub fn run(op: &str, case: &Value) -> Result<Value> {
                 Err(e) => errv(e),
             }
         }
+        "validate" => {
+            let inst: v1::Instance = msg(&case["instance"])?;
+            match inst.validate() {
+                Ok(()) => json!({"ok": true}),
+                Err(e) => errv(e),
+            }
+        }
+        "validate_parametric" => {
+            let p: v1::ParametricInstance = msg(&case["parametric"])?;
+            match p.validate() {
+                Ok(()) => json!({"ok": true}),
+                Err(e) => errv(e),
+            }
+        }
+        "try_from_instance" => {
+            let inst: v1::Instance = msg(&case["instance"])?;
+            match ommx::Instance::try_from(inst) {
+                Ok(t) => {
+                    // the typed fields are private: read the variable bounds from the Debug rendering
+                    let dbg = format!("{:?}", t);
+                    let mut bounds = serde_json::Map::new();
+                    let key = "DecisionVariable { id: VariableID(";
+                    let mut rest = dbg.as_str();
+                    while let Some(p) = rest.find(key) {
+                        rest = &rest[p + key.len()..];
+                        let id: String = rest.chars().take_while(|c| c.is_ascii_digit()).collect();
+                        if let Some(b) = rest.find("bound: Bound { lower: ") {
+                            let tail = &rest[b + "bound: Bound { lower: ".len()..];
+                            let lo: String = tail.chars().take_while(|c| *c != ',').collect();
+                            if let Some(u) = tail.find("upper: ") {
+                                let t2 = &tail[u + 7..];
+                                let hi: String = t2.chars().take_while(|c| *c != ' ' && *c != '}').collect();
+                                let f = |s: &str| -> Value { match s.parse::<f64>() { Ok(x) => fj(x), Err(_) => json!(s) } };
+                                bounds.insert(id, json!([f(&lo), f(&hi)]));
+                            }
+                        }
+                    }
+                    json!({"ok": {"bounds": bounds}})
+                }
+                Err(e) => json!({"err": format!("{e}"), "debug": format!("{e:?}")}),
+            }
+        }
+        "log_encode" => {
+            let mut inst: v1::Instance = msg(&case["instance"])?;
+            match inst.log_encode(ju(&case["id"])?) {
+                Ok(l) => json!({"ok": {"linear": enc(&l), "instance": enc(&inst)}}),
+                Err(e) => errv(e),
+            }
+        }
+        "convert_to_equality" | "add_integer_slack" => {
+            let mut inst: v1::Instance = msg(&case["instance"])?;
+            let id = ju(&case["id"])?;
+            let r: Result<Value> = if op == "convert_to_equality" {
+                inst.convert_inequality_to_equality_with_integer_slack(id, ju(&case["max_range"])?).map(|_| json!(null))
+            } else {
+                inst.add_integer_slack_to_inequality(id, ju(&case["upper"])?).map(|b| match b { Some(x) => fj(x), None => json!(null) })
+            };
+            match r {
+                Ok(b) => json!({"ok": {"instance": enc(&inst), "b": b}}),
+                Err(e) => {
+                    let infeasible = e.downcast_ref::<ommx::InfeasibleDetected>().is_some();
+                    json!({"err": format!("{e:#}"), "infeasible": infeasible, "instance": enc(&inst)})
+                }
+            }
+        }
         _ => bail!("unknown op {op}"),
     })
 }
